@@ -525,6 +525,70 @@ fn startup_body(fail: StartFail, linked: bool, local: bool, instant: bool) -> vs
     })
 }
 
+/// A child created by spawn_linked_instant (or spawn_instant + link) is still Unstarted — its start task has
+/// not been polled — when its supervisor exits. It was linked beneath the exiting actor, so it must go down.
+fn instant_child_body(cause: Cause, manual_link: bool, local: bool) -> vsched::Body {
+    Arc::new(move || {
+        Box::pin(async move {
+            let log = Log::default();
+            let spawner = ractor::thread_local::ThreadLocalActorSpawner::verif_new_local();
+            let (p, ph) = Actor::spawn(Some("P".into()), Probe, args("P", Prog::default(), &log)).await.expect("P");
+            let cells: Arc<Mutex<Vec<(String, ActorCell)>>> = Arc::new(Mutex::new(vec![("P".into(), p.get_cell())]));
+            let inv_cells = cells.clone();
+            vsched::set_invariant(move || {
+                let c = inv_cells.lock().unwrap().clone();
+                tree_invariants(&c)
+            });
+            use ractor::thread_local::ThreadLocalActor;
+            let a = args("K", Prog::default(), &log);
+            let spawned = match (manual_link, local) {
+                (false, false) => ractor::ActorRuntime::<Probe>::spawn_linked_instant(None, Probe, a, p.get_cell()),
+                (false, true) => <Probe as ThreadLocalActor>::spawn_linked_instant(None, a, p.get_cell(), spawner.clone()),
+                (true, false) => ractor::ActorRuntime::<Probe>::spawn_instant(None, Probe, a),
+                (true, true) => <Probe as ThreadLocalActor>::spawn_instant(None, a, spawner.clone()),
+            };
+            let (k, outer) = spawned.expect("instant spawn");
+            let linked = if manual_link { inspect::try_link(&k.get_cell(), &p.get_cell()) } else { true };
+            cells.lock().unwrap().push(("K".into(), k.get_cell()));
+            // no await since the spawn: K's start task has not run yet
+            match cause {
+                Cause::Stop => p.stop(None),
+                Cause::Kill => p.kill(),
+                Cause::Err => {
+                    let _ = p.cast(do_msg(1, vec![Step::Err("boom")]));
+                }
+                Cause::Panic => {
+                    let _ = p.cast(do_msg(1, vec![Step::Panic("boom")]));
+                }
+                Cause::Abort(_) => {
+                    let _ = p.cast(do_msg(1, vec![Step::Yield, Step::Tick, Step::Yield]));
+                }
+            }
+            vsched::quiesce_time();
+            let _ = ph.await;
+            let _ = outer.await;
+            vsched::quiesce_time();
+            let mut bad = Vec::new();
+            if p.get_status() != ActorStatus::Stopped {
+                bad.push(format!("the supervisor is {:?}", p.get_status()));
+            }
+            if linked && k.get_status() != ActorStatus::Stopped {
+                bad.push(format!(
+                    "K was linked beneath P before its start task ever ran, P exited, and K is {:?} (supervisor: {:?}): it escaped the subtree kill",
+                    k.get_status(),
+                    k.try_get_supervisor().map(|s| s.get_id().to_string())
+                ));
+            }
+            let snapshot: Vec<(String, ActorCell)> = cells.lock().unwrap().clone();
+            bad.extend(tree_invariants(&snapshot));
+            let key = format!("linked={linked} K={:?}", k.get_status());
+            k.kill();
+            vsched::quiesce_time();
+            Outcome { key, violations: bad }
+        })
+    })
+}
+
 const S_KINDS: &[PointKind] = &[PointKind::Atomic, PointKind::Lock, PointKind::Channel, PointKind::Other];
 
 pub fn plan(tier: &str) -> Plan {
@@ -596,6 +660,24 @@ pub fn plan(tier: &str) -> Plan {
             live_body(shape, at_root, cause, race, local),
         )));
     }
+    // a child that is still Unstarted (instant spawn, start task not yet polled) when its supervisor exits
+    for cause in [Cause::Kill, Cause::Stop, Cause::Panic, Cause::Abort(2)] {
+        for (manual, local) in [(false, false), (true, false), (false, true)] {
+            if !thorough && local && cause != Cause::Kill {
+                continue;
+            }
+            let mut c = cfg.clone();
+            if let Cause::Abort(k) = cause {
+                c.cuts = vec![vsched::CutSpec { sel: vsched::Sel::Name("P".into()), at_poll: k }];
+            }
+            units.push(Unit::explore(Job::new(
+                format!("instant-child/{cause:?}/{}/{}", if manual { "spawn_instant+link" } else { "spawn_linked_instant" }, if local { "local" } else { "send" }).replace(['(', ')'], ""),
+                c,
+                Some(lb),
+                instant_child_body(cause, manual, local),
+            )));
+        }
+    }
     // exits before the actor ever ran, with a subtree linked from pre_start
     for local in [false, true] {
         for linked in [false, true] {
@@ -624,7 +706,7 @@ pub fn plan(tier: &str) -> Plan {
     Plan {
         property: "C05",
         units,
-        rule: "core: link / relink / unlink / second link / child exit racing the real exit path (ActorLifecycleGuard: Stopping, terminate, unlink, Stopped) on real cells with a decision point before every lock, atomic and signal-port operation, complete tree with sleep sets for the 2-task case, deviation-bounded otherwise; live: real supervision trees (chain, fan, bushy; Send and thread-local children), one node exits by stop/kill/Err/panic/task cancellation (task dropped before its k-th poll) while a task spawns under it, links into it, relinks or unlinks a child, deviation-bounded DFS over task-level schedules with the structural invariants (child has at most one supervisor and is in exactly that child set; a stopped actor has neither) evaluated at EVERY scheduling step and the subtree-death clauses at quiescence; startup: an actor whose pre_start linked a child (whose pre_start linked a grandchild) exits before it ever ran (pre_start Err / panic, spawning future dropped before its k-th poll for every k, supervisor stopped or killed meanwhile; spawn, spawn_linked and the instant and thread-local variants), the whole subtree must end Stopped; non-trivial = execution with >= 1 branching decision".into(),
+        rule: "core: link / relink / unlink / second link / child exit racing the real exit path (ActorLifecycleGuard: Stopping, terminate, unlink, Stopped) on real cells with a decision point before every lock, atomic and signal-port operation, complete tree with sleep sets for the 2-task case, deviation-bounded otherwise; live: real supervision trees (chain, fan, bushy; Send and thread-local children), one node exits by stop/kill/Err/panic/task cancellation (task dropped before its k-th poll) while a task spawns under it, links into it, relinks or unlinks a child, deviation-bounded DFS over task-level schedules with the structural invariants (child has at most one supervisor and is in exactly that child set; a stopped actor has neither) evaluated at EVERY scheduling step and the subtree-death clauses at quiescence; instant-child: a child from spawn_linked_instant / spawn_instant + link whose start task has not been polled when its supervisor exits must go down with it; startup: an actor whose pre_start linked a child (whose pre_start linked a grandchild) exits before it ever ran (pre_start Err / panic, spawning future dropped before its k-th poll for every k, supervisor stopped or killed meanwhile; spawn, spawn_linked and the instant and thread-local variants), the whole subtree must end Stopped; non-trivial = execution with >= 1 branching decision".into(),
         assumptions: vec![
             "sequential consistency; structural operations are observed at step boundaries only (two independent concurrent reads are not required to agree)".into(),
             "trees of up to 5 nodes, depth 3".into(),
